@@ -1,6 +1,6 @@
 CONSTANTS
   SeedIds = {1, 2, 3, 4, 5}
-  Focus = {"Clone","SetDtype","SetType","SetDim","SetDenot","SetShape","MetaPut","ValMetaPut","SetConst","SetName","NodeMetaPut","AttrPut","AttrDel","ReplaceInput","ResizeOutputs","GRemove","GraphMetaPut","IOPop","IOAppend","InitDel"}
+  Focus = {"Clone","SetDtype","SetType","SetDim","SetDenot","SetShape","MetaPut","ValMetaPut","MetaInvalidate","SetConst","SetName","NodeMetaPut","AttrPut","AttrDel","ReplaceInput","ResizeOutputs","GRemove","GraphMetaPut","IOPop","IOAppend","InitDel"}
   MaxGraphs = 4
   MaxDepth = 3
   EditVals = {1, 5, 6, 7, 8, 9, 10, 11, 12}
